@@ -3,7 +3,6 @@
 package slip
 
 import (
-	"fmt"
 	"strings"
 )
 
@@ -433,7 +432,7 @@ func GetArgsKeyValue(args List, key Symbol) (value Object, has bool) {
 			TypePanic(NewScope(), 0, "keyword", args[pos], "keyword")
 		}
 		if len(args)-1 <= pos {
-			panic(fmt.Sprintf("%s missing an argument", sym))
+			ErrorPanic(NewScope(), 0, "%s missing an argument", sym)
 		}
 		if strings.EqualFold(string(key), string(sym)) {
 			value = args[pos+1]
